@@ -11,9 +11,12 @@ import (
 	"encoding/hex"
 	"fmt"
 	"math/rand/v2"
+	"os"
+	"os/exec"
 	"regexp"
 	"runtime"
 	"sort"
+	"strings"
 	"testing"
 
 	"github.com/cockroachdb/pebble/batchrepr"
@@ -321,10 +324,19 @@ func TestVerifC31Flushable(t *testing.T) {
 		"a sequence number, and which of the two production paths assigns it (before newFlushableBatch as in WAL replay / setSeqNum afterwards as in commit); " +
 		"distinct by (comparer, path, #points, #rangedels, #rangekeys, repr hash); non-trivial if the batch holds at least 2 entries. " +
 		"malformed case = mutated valid repr through newFlushableBatch and memTable.apply; distinct by content hash")
-	nDiff := vcommon.Scale(700, 28000)
-	nMal := vcommon.Scale(300, 12000)
+	nDiff := vcommon.Scale(210, 8400)
+	nMal := vcommon.Scale(45, 1800)
 	seen := map[string]int{}
 	r.Cases(nDiff+nMal, func(i int, rng *rand.Rand) {
+		defer func() {
+			// a panic escaping a case (pebble code on a VALID batch, or a harness bug)
+			// must not silently drop the remaining cases
+			if rec := recover(); rec != nil {
+				buf := make([]byte, 8<<10)
+				buf = buf[:runtime.Stack(buf, false)]
+				r.Violate("case-panic", fmt.Sprintf("case %d panicked: %.300s", i, fmt.Sprint(rec)), map[string]any{"stack": string(buf)}, map[string]any{"what": "case-panic"})
+			}
+		}()
 		if i < nDiff {
 			verifC31Differential(r, i, rng)
 		} else {
@@ -348,8 +360,10 @@ func verifC31Differential(r *vcommon.Report, i int, rng *rand.Rand) {
 		n = 1 + rng.IntN(25)
 	case x < 95:
 		n = 26 + rng.IntN(200)
+	case x < 98:
+		n = 300 + rng.IntN(700)
 	default:
-		n = 500 + rng.IntN(2500)
+		n = 1000 + rng.IntN(4001) // up to 5000
 	}
 	ops := verifC31GenOps(rng, g, n)
 	b := newBatch(nil)
@@ -359,6 +373,7 @@ func verifC31Differential(r *vcommon.Report, i int, rng *rand.Rand) {
 			return
 		}
 	}
+	_ = b.Repr() // materialise the header of an empty batch
 	seq := base.SeqNum(1 + rng.Uint64N(1<<40))
 	replayPath := rng.IntN(2) == 0
 	path := "commit(setSeqNum after)"
@@ -579,6 +594,55 @@ func verifC31Analyse(data []byte) (spansOK, rkBad bool) {
 	return spansOK, rkBad
 }
 
+// verifC31Child runs newFlushableBatch on data in a child process (this test
+// binary, TestVerifC31FlushableChild) and reports whether the child died.
+func verifC31Child(data []byte) (msg string, died bool, err error) {
+	dir, err := os.MkdirTemp(vcommon.OutDir(), "c31child")
+	if err != nil {
+		return "", false, err
+	}
+	defer os.RemoveAll(dir)
+	cmd := exec.Command(os.Args[0], "-test.run", "^TestVerifC31FlushableChild$", "-test.count", "1")
+	cmd.Env = append(os.Environ(), "VERIF_C31_CHILD_INPUT="+hex.EncodeToString(data), "VERIF_OUT="+dir, "GORACE=")
+	out, runErr := cmd.CombinedOutput()
+	if runErr == nil {
+		return "", false, nil
+	}
+	if _, ok := runErr.(*exec.ExitError); !ok {
+		return "", false, runErr
+	}
+	m := regexp.MustCompile(`(?m)^(fatal error:.*|panic:.*)$`).Find(out)
+	if m == nil {
+		return "", false, fmt.Errorf("child failed without a panic line: %.200s", out)
+	}
+	msg = verifC31Digits.ReplaceAllString(string(m), "N")
+	if len(msg) > 70 {
+		msg = msg[:70]
+	}
+	return msg, true, nil
+}
+
+// TestVerifC31FlushableChild is the child side of verifC31Child; it does
+// nothing unless VERIF_C31_CHILD_INPUT is set.
+func TestVerifC31FlushableChild(t *testing.T) {
+	hx := os.Getenv("VERIF_C31_CHILD_INPUT")
+	if hx == "" {
+		t.Skip("child helper")
+	}
+	data, err := hex.DecodeString(hx)
+	if err != nil {
+		t.Skip("bad input")
+	}
+	nb := newBatch(nil)
+	if err := nb.SetRepr(data); err != nil {
+		return
+	}
+	fb, err := newFlushableBatch(nb, DefaultComparer)
+	if err == nil {
+		_ = verifC31Forward(fb.newIter(nil))
+	}
+}
+
 var verifC31Digits = regexp.MustCompile(`0x[0-9a-fA-F]+|[0-9]+`)
 
 func verifC31Guard(f func()) (pmsg string, panicked bool, stack string) {
@@ -656,7 +720,7 @@ func verifC31Malformed(r *vcommon.Report, i int, rng *rand.Rand, seen map[string
 	case x < 40:
 		label = "count-field"
 		n := uint32(len(kindOffs))
-		for _, c := range []uint32{0, n - 1, n + 1, 0xffffffff, rng.Uint32()} {
+		for _, c := range []uint32{0, n - 1, n + 1, n + 1000, 1 << 16, 0xffffffff, 1<<31 + rng.Uint32()>>1} {
 			mm := append([]byte(nil), repr...)
 			binary.LittleEndian.PutUint32(mm[8:], c)
 			inputs = append(inputs, mm)
@@ -719,7 +783,38 @@ func verifC31Malformed(r *vcommon.Report, i int, rng *rand.Rand, seen map[string
 		r.Eval(1)
 		r.Count("malformed_inputs", 1)
 		r.Distinct("mal", hex.EncodeToString(data))
+		// A header count in the billions makes newFlushableBatch size an
+		// allocation from it; a failed allocation is a fatal error that cannot be
+		// recovered, so such inputs run in a child process (twice per process,
+		// afterwards they are only counted).
+		if h, ok := batchrepr.ReadHeader(data); ok && h.Count > 1<<24 {
+			if seen["huge-count-child"] >= 2 {
+				r.Count("huge_count_inputs_not_executed", 1)
+				continue
+			}
+			seen["huge-count-child"]++
+			msg, died, err := verifC31Child(data)
+			switch {
+			case err != nil:
+				r.Inconclusive("child process for a huge-count input could not be run: %v", err)
+			case died:
+				r.Count("decode_panics_total", 1)
+				r.SetAdd("decode_panics", "newFlushableBatch(child)|"+msg)
+				r.Violate("decode-panic", fmt.Sprintf("newFlushableBatch killed the process on a %d-byte repr whose header count is %d: %s", len(data), h.Count, msg),
+					map[string]any{"api": "newFlushableBatch", "panic": msg, "input_hex": hex.EncodeToString(data), "header_count": h.Count},
+					map[string]any{"api": "newFlushableBatch", "panic": msg})
+			default:
+				r.Count("verdict_ok_or_error:newFlushableBatch(child)", 1)
+			}
+			continue
+		}
 		report := func(api, p, st string) {
+			if strings.Contains(st, "internal/base.AssertionFailedf") {
+				// base.AssertionFailedf panics only in invariants builds (this one);
+				// a production build returns the same error to the caller.
+				r.Count("assertion_error_(panics_only_under_invariants):"+api, 1)
+				return
+			}
 			key := api + "|" + p
 			seen[key]++
 			r.Count("decode_panics_total", 1)
